@@ -135,11 +135,21 @@ type State struct {
 	pc       *Term
 	mems     map[string]*Mem
 	baseTag  string
+	baseSel  *baseSel // when states with different base tags were merged: which base applies
 	famTags  map[string]famTag // families havocked as a whole since the last global havoc
 	allocTop *Term             // element memories: next free address
 	refTop   *Term             // object references: next free reference
 	ghost    map[string]*Term
 	dead     bool
+}
+
+// baseSel records, for families not materialised when states were merged, which initial
+// (or post-havoc) memory each path saw.
+type baseSel struct {
+	tag  string
+	fam  map[string]famTag
+	cond *Term
+	a, b *baseSel
 }
 
 type famTag struct {
@@ -148,7 +158,7 @@ type famTag struct {
 }
 
 func (s *State) clone() *State {
-	n := &State{pc: s.pc, mems: make(map[string]*Mem, len(s.mems)), baseTag: s.baseTag, famTags: make(map[string]famTag, len(s.famTags)), allocTop: s.allocTop, refTop: s.refTop, ghost: make(map[string]*Term, len(s.ghost)), dead: s.dead}
+	n := &State{pc: s.pc, mems: make(map[string]*Mem, len(s.mems)), baseTag: s.baseTag, baseSel: s.baseSel, famTags: make(map[string]famTag, len(s.famTags)), allocTop: s.allocTop, refTop: s.refTop, ghost: make(map[string]*Term, len(s.ghost)), dead: s.dead}
 	for k, v := range s.mems {
 		n.mems[k] = v
 	}
@@ -255,18 +265,66 @@ func (c *VCtx) family(s *State, key string, sort *Sort) *Mem {
 		}
 		return m
 	}
-	bk := key + "@" + s.baseTag
-	if ft, ok := s.famTags[key]; ok {
-		bk = key + "@" + ft.tag
+	var m *Mem
+	if s.baseSel != nil {
+		m = c.baseOf(s.baseSel, key, sort)
+	} else {
+		tag := s.baseTag
+		if ft, ok := s.famTags[key]; ok {
+			tag = ft.tag
+		}
+		m = c.baseNamed(key, tag, sort)
 	}
+	s.mems[key] = m
+	return m
+}
+
+func (c *VCtx) baseNamed(key, tag string, sort *Sort) *Mem {
+	bk := key + "@" + tag
 	m, ok := c.bases[bk]
 	if !ok {
 		m = MemBase(bk, sort)
 		m.fam = key
 		c.bases[bk] = m
 	}
-	s.mems[key] = m
 	return m
+}
+
+func (c *VCtx) baseOf(b *baseSel, key string, sort *Sort) *Mem {
+	if b.cond == nil {
+		tag := b.tag
+		if ft, ok := b.fam[key]; ok {
+			tag = ft.tag
+		}
+		return c.baseNamed(key, tag, sort)
+	}
+	return MemIte(b.cond, c.baseOf(b.a, key, sort), c.baseOf(b.b, key, sort))
+}
+
+func (s *State) sel() *baseSel {
+	if s.baseSel != nil {
+		return s.baseSel
+	}
+	fam := make(map[string]famTag, len(s.famTags))
+	for k, v := range s.famTags {
+		fam[k] = v
+	}
+	return &baseSel{tag: s.baseTag, fam: fam}
+}
+
+func sameSel(a, b *State) bool {
+	if a.baseSel != nil || b.baseSel != nil {
+		return a.baseSel == b.baseSel
+	}
+	if a.baseTag != b.baseTag || len(a.famTags) != len(b.famTags) {
+		return false
+	}
+	for k, v := range a.famTags {
+		if w, ok := b.famTags[k]; !ok || w.tag != v.tag {
+			return false
+		}
+	}
+	return true
 }
 
 func (c *VCtx) read(s *State, key string, sort *Sort, addr *Term) *Term {
@@ -283,6 +341,7 @@ func (c *VCtx) havocAll(s *State, why string) {
 	freshCounter++
 	s.mems = map[string]*Mem{}
 	s.famTags = map[string]famTag{}
+	s.baseSel = nil
 	s.baseTag = fmt.Sprintf("h%d", freshCounter)
 	// unknown code may allocate
 	nt := Fresh("allocTop", Ref)
@@ -296,6 +355,11 @@ func (c *VCtx) havocAll(s *State, why string) {
 // havocFamily forgets one whole family.
 func (c *VCtx) havocFamily(s *State, key string, sort *Sort) {
 	freshCounter++
+	if s.baseSel != nil {
+		// the state is a merge: give the family a fresh base directly
+		s.mems[key] = c.baseNamed(key, fmt.Sprintf("f%d", freshCounter), sort)
+		return
+	}
 	delete(s.mems, key)
 	s.famTags[key] = famTag{fmt.Sprintf("f%d", freshCounter), sort}
 }
@@ -350,13 +414,11 @@ func (c *VCtx) mergeStates(edges []*State) *State {
 			nm[k] = MemIte(e.pc, a, b)
 		}
 		out.mems = nm
-		if e.baseTag != out.baseTag {
-			// untouched families differ between the two sides: give the join a fresh tag and
-			// relate lazily; conservatively the join tag is new (unknown contents), which is sound.
-			freshCounter++
-			out.baseTag = fmt.Sprintf("j%d", freshCounter)
+		if !sameSel(e, out) {
+			// families not materialised on either side keep, per path, the base that path saw
+			out.baseSel = &baseSel{cond: e.pc, a: e.sel(), b: out.sel()}
+			out.famTags = map[string]famTag{}
 		}
-		out.famTags = map[string]famTag{}
 		out.allocTop = Ite(e.pc, e.allocTop, out.allocTop)
 		out.refTop = Ite(e.pc, e.refTop, out.refTop)
 		g := map[string]*Term{}
